@@ -1155,3 +1155,87 @@ impl BorrowMut<Shift> for GlvShift {
         &mut self.shift
     }
 }
+
+/// Verification hooks (compiled only with `--cfg gmsol_verif`): thin wrappers of crate-private methods.
+#[cfg(gmsol_verif)]
+pub mod verif {
+    use super::*;
+
+    /// See [`Glv::unchecked_init`].
+    #[allow(clippy::too_many_arguments)]
+    pub fn unchecked_init(
+        glv: &mut Glv,
+        bump: u8,
+        index: u16,
+        store: &Pubkey,
+        glv_token: &Pubkey,
+        long_token: &Pubkey,
+        short_token: &Pubkey,
+        market_tokens: &BTreeSet<Pubkey>,
+    ) -> Result<()> {
+        glv.unchecked_init(
+            bump,
+            index,
+            store,
+            glv_token,
+            long_token,
+            short_token,
+            market_tokens,
+        )
+    }
+
+    /// See [`Glv::insert_market`].
+    pub fn insert_market(glv: &mut Glv, store: &Pubkey, market: &Market) -> Result<()> {
+        glv.insert_market(store, market)
+    }
+
+    /// See [`Glv::unchecked_remove_market`].
+    pub fn unchecked_remove_market(glv: &mut Glv, market_token: &Pubkey) -> Result<()> {
+        glv.unchecked_remove_market(market_token)
+    }
+
+    /// See [`Glv::update_market_config`].
+    pub fn update_market_config(
+        glv: &mut Glv,
+        market_token: &Pubkey,
+        max_amount: Option<u64>,
+        max_value: Option<u128>,
+    ) -> Result<()> {
+        glv.update_market_config(market_token, max_amount, max_value)
+    }
+
+    /// See [`Glv::toggle_market_config_flag`].
+    pub fn toggle_market_config_flag(
+        glv: &mut Glv,
+        market_token: &Pubkey,
+        flag: GlvMarketFlag,
+        enable: bool,
+    ) -> Result<bool> {
+        glv.toggle_market_config_flag(market_token, flag, enable)
+    }
+
+    /// See [`Glv::validate_market_token_balance`].
+    pub fn validate_market_token_balance(
+        glv: &Glv,
+        market_token: &Pubkey,
+        new_balance: u64,
+        market_pool_value: &i128,
+        market_token_supply: &u128,
+    ) -> Result<()> {
+        glv.validate_market_token_balance(
+            market_token,
+            new_balance,
+            market_pool_value,
+            market_token_supply,
+        )
+    }
+
+    /// See [`Glv::update_market_token_balance`].
+    pub fn update_market_token_balance(
+        glv: &mut Glv,
+        market_token: &Pubkey,
+        new_balance: u64,
+    ) -> Result<()> {
+        glv.update_market_token_balance(market_token, new_balance)
+    }
+}
